@@ -18,11 +18,23 @@ import (
 
 func init() { register("C01", checkC01) }
 
+// distinctSites: the number of distinct transfer instructions among the instances (one site may be described once per
+// explored path).
+func distinctSites(tis []TransferInst) int {
+	seen := map[ssa.Instruction]bool{}
+	for _, ti := range tis {
+		seen[ti.Site] = true
+	}
+	return len(seen)
+}
+
 // typedCollector: transfers under a fixed bid type.
 func transfersUnder(w *World, tm *Terms, root *ssa.Function, entry string, valueOf func(x *Explorer, fr *Frame, v ssa.Value) AV) []TransferInst {
 	rolesTM = tm
 	c := &typedCollector{transferCollector: transferCollector{w: w, entry: entry, out: map[string]TransferInst{}}, valueOf: valueOf}
-	NewExplorer(w, tm, c).Run(root, 0)
+	x := NewExplorer(w, tm, c)
+	x.TrackPhi = true
+	x.Run(root, 0)
 	var out []TransferInst
 	for _, k := range sortedKeys(c.out) {
 		out = append(out, c.out[k])
@@ -157,11 +169,8 @@ func checkC01(w *World, r *Report) {
 	place := ms["PlaceBid"]
 	convSkel := ""
 	bidT := w.lookupNamed(typesPath, "Bid")
-	for _, e := range moneyExcursions(w, tm) {
-		if obj := funcObj(e.fn); obj != nil && recvNamed(obj) == bidT && e.role == "payment" {
-			convSkel = e.skel
-		}
-	}
+	convSkel = convPayingSkeleton(w, moneyExcursions(w, tm))
+	_ = bidT
 	for _, bt := range admitted {
 		name := btNames[bt]
 		var reserves []TransferInst
@@ -170,9 +179,9 @@ func checkC01(w *World, r *Report) {
 				reserves = append(reserves, ti)
 			}
 		}
-		ok, why := len(reserves) == 1, fmt.Sprintf("%d reservation transfer sites reachable for this bid type", len(reserves))
-		if ok {
-			amt := reserves[0].Amount
+		ok, why := distinctSites(reserves) == 1, fmt.Sprintf("%d reservation transfer sites reachable for this bid type", distinctSites(reserves))
+		for ri := 0; ok && ri < len(reserves); ri++ {
+			amt := reserves[ri].Amount
 			d := dirOf(innerAmount(amt))
 			usesMsgCoin := containsFieldOfParam(amt, "Coin")
 			switch {
@@ -183,7 +192,8 @@ func checkC01(w *World, r *Report) {
 			default:
 				sk := skeleton(innerAmount(amt))
 				worth := !amt.Any(func(t *Term) bool { return t.Op == "call" && mathName(t) != "" })
-				conv := sk == "{AMT|"+convSkel+"}" || sk == "{"+convSkel+"|AMT}"
+				// on one explored path the conversion has taken one of its two branches; merged paths show both
+				conv := sk == "{AMT|"+convSkel+"}" || sk == "{"+convSkel+"|AMT}" || sk == convSkel || sk == "AMT"
 				usesPrice := containsFieldOfParam(amt, "Price")
 				if !(worth || (conv && usesPrice)) {
 					ok, why = false, fmt.Sprintf("the reserved amount %s is neither the stored coin itself nor the bid's to-paying conversion {AMT|%s} of the stored price and coin", sk, convSkel)
@@ -251,9 +261,9 @@ func checkC01(w *World, r *Report) {
 				res = append(res, ti)
 			}
 		}
-		ok, why := len(res) == 1, fmt.Sprintf("%d reservation transfer sites for this type", len(res))
-		if ok {
-			amt := innerAmount(res[0].Amount)
+		ok, why := distinctSites(res) == 1, fmt.Sprintf("%d reservation transfer sites for this type", distinctSites(res))
+		for ri := 0; ok && ri < len(res); ri++ {
+			amt := innerAmount(res[ri].Amount)
 			d := dirOf(amt)
 			switch bt {
 			case 2:
